@@ -43,6 +43,21 @@ inductive Pos where
 
 def dtHint : String := "string_format_datetime"
 
+/-- the position's classification when the type is a reference to an object of type `oty` -/
+def classifyRef (oty : Ty) (nullable : Bool) : Pos :=
+  match oty with
+  | .struct fields _ none _ => .struct fields nullable
+  | .struct fields _ (some _) _ => .union fields nullable
+  | .enum (v0 :: _) _ => .leaf v0.kind false nullable
+  | .scalar kind _ _ om =>
+    if kind = "bytes" then .unsup "bytes"
+    else if kind = "any" then .unsup "reference to an alias of any"
+    else .leaf kind (hasHint om dtHint) nullable
+  | .array .. | .map .. =>
+    if nullable then .unsup "nullable reference to a collection alias" else .alias oty
+  | .ref p n om => .alias (.ref p n { om with nullable := nullable })
+  | _ => .unsup "object kind"
+
 def classify (ss : Schemas) (t : Ty) : Pos :=
   match t with
   | .scalar kind _ _ m =>
@@ -57,19 +72,7 @@ def classify (ss : Schemas) (t : Ty) : Pos :=
   | .ref pkg name m =>
     match Schemas.locateObject ss pkg name with
     | none => .unsup "dangling reference"
-    | some o =>
-      match o.ty with
-      | .struct fields _ none _ => .struct fields m.nullable
-      | .struct fields _ (some _) _ => .union fields m.nullable
-      | .enum (v0 :: _) _ => .leaf v0.kind false m.nullable
-      | .scalar kind _ _ om =>
-        if kind = "bytes" then .unsup "bytes"
-        else if kind = "any" then .unsup "reference to an alias of any"
-        else .leaf kind (hasHint om dtHint) m.nullable
-      | .array .. | .map .. =>
-        if m.nullable then .unsup "nullable reference to a collection alias" else .alias o.ty
-      | .ref p n om => .alias (.ref p n { om with nullable := m.nullable })
-      | _ => .unsup "object kind"
+    | some o => classifyRef o.ty m.nullable
   | .cref pkg name _ _ => .alias (.ref pkg name {})
   | _ => .unsup ("type kind " ++ t.kind)
 
